@@ -39,6 +39,7 @@ func init() {
 		"vfExecSet":    vfExecSet,
 		"vfTerminates": vfTerminates,
 		"vfTypeCheck":  vfTypeCheck,
+		"vfTypeErrors": vfTypeErrors,
 		"vfFileExists": vfFileExists,
 		"vfLoadResult": vfLoadResult,
 		"vfLoadDir":    vfLoadDir,
